@@ -49,6 +49,8 @@ Inductive case :=
 | CReplay (fs n commit snp : nat) (clears : list nat) (first : nat) (rep : option (nat * nat * nat)) (appl : nat)
 | CAck (evs : list mev) (acks : list batch) (final : list (key * val))
 | CAckErr (acked : bool)
+| CCoord (script : list wres) (acked : bool) (calls : nat)
+| CGroup (forced lost : bool)
 | CHist (obs : list oev) (w : list wstep)
 | CConflict (old : list batch) (j : nat) (new : list batch) (applied : list batch).
 
@@ -66,7 +68,7 @@ Fixpoint mklog (n : nat) (i : N) : list entry :=
 (* restart-replay scenario on the model: a member with n entries (entry i writes key i), own snapshot index snp,
    the ClearEntryLog indexes applied with the variant's rule, killed and restarted *)
 Definition replay_model (clampv : bool) (fs n commit snp : nat) (clears : list nat) : nat * option (nat * nat * nat) * nat :=
-  let c := mkCfg 3 fs true clampv true in
+  let c := mkCfg 3 fs true clampv true true false in
   let lg := mklog n 1%N in
   let x0 := mkNode true false lg 0 commit snp [] [] [] 0 snp [] [] false [] 0%N in
   let x1 := fold_left (fun x idx => apply_node c 0 x (EClear idx)) clears x0 in
@@ -90,7 +92,7 @@ Definition same_batches (a b : list batch) : bool :=
   Nat.eqb (length a) (length b) && forallb (fun x => batch_in x b) a && forallb (fun x => batch_in x a) b.
 
 Definition ack_model (fresh : bool) (evs : list mev) : option (list batch * sys) :=
-  match run raft_ref (init (mkCfg 3 30000 true true fresh)) (flat_map expand evs) with
+  match run raft_ref (init (mkCfg 3 30000 true true fresh true false)) (flat_map expand evs) with
   | Some s => Some (map (fun a => snd a) (acked s), s)
   | None => None
   end.
@@ -174,6 +176,25 @@ Fixpoint reject_at (s : sys) (w : list wstep) (i : nat) : option nat :=
       end
   end.
 
+(* the long-outage scenario of the real 3-node group: member 2 is down while the others write (with an overwrite),
+   flush and run the truncation decision; then it rejoins. forced = the tolerate-time/size branch acted. Result: does the
+   rejoined, caught-up member lack an acknowledged value? today = truncation branches as coded + raft snapshot install *)
+Definition outage_trace (forced : bool) : list event :=
+  [ RElect 0;
+    Propose 0 [(1%N, 10%Z)]; RReplicate 1 1; RReplicate 2 1; RCommit 1; RLearn 0 1; RLearn 1 1; RLearn 2 1;
+    Apply 0; Apply 1; Apply 2; Kill 2;
+    Propose 0 [(1%N, 11%Z)]; Propose 0 [(2%N, 20%Z)]; RReplicate 1 3; RCommit 3; RLearn 0 3; RLearn 1 3;
+    Apply 0; Apply 0; Apply 1; Apply 1;
+    UpdSnapc 0; FlushSwap 0; SnapPersist 0; FlushCommit 0; UpdSnapc 1; FlushSwap 1; SnapPersist 1; FlushCommit 1 ]
+  ++ (if forced then [TruncForce 3; RReplicate 1 4; RCommit 4; RLearn 0 4; RLearn 1 4; Apply 0; Apply 1; Restart 2; RSnapshot 2]
+      else [Restart 2; RReplicate 2 3; RLearn 2 3; Apply 2; Apply 2]).
+
+Definition group_lost (today forced : bool) : bool :=
+  match run raft_ref (init (if today then cfg_today 3 2 else cfg_repaired 3 2)) (outage_trace forced) with
+  | Some s => negb (match read s 2 1%N with Some v => Z.eqb v 11 | None => false end)
+  | None => false      (* the forced truncation is not enabled: nothing is lost *)
+  end.
+
 Definition variant (cur rep : bool) : nat :=
   match cur, rep with true, true => 0 | true, false => 1 | false, true => 2 | false, false => 3 end.
 
@@ -194,6 +215,14 @@ Definition classify (c : case) : nat :=
       variant (replay_eqb (replay_model false fs n commit snp clears) (first, rep, appl))
               (replay_eqb (replay_model true fs n commit snp clears) (first, rep, appl))
   | CAck evs acks final => variant (ack_agrees false evs acks final) (ack_agrees true evs acks final)
+  | CCoord script acked calls =>
+      let lst := last script WFail in
+      let r := coord_retry 1000 (removelast script) lst 0 in
+      match lst with
+      | WRetry => if Bool.eqb (fst (coord_retry 3 (removelast script) lst 0)) acked && Nat.leb (length script) calls then 0 else 3
+      | _ => if Bool.eqb (fst r) acked && Nat.eqb (snd r) calls then 0 else 3
+      end
+  | CGroup forced lost => variant (Bool.eqb (group_lost true forced) lost) (Bool.eqb (group_lost false forced) lost)
   | CHist obs w => if accepts obs w then 0 else 3
   | CConflict old j new applied =>
       if list_eqb batch_eqb (conflict_applied old j new) applied then 0 else 3
